@@ -92,7 +92,7 @@ impl Prop for C10 {
         "C10"
     }
     fn rule(&self) -> String {
-        "generated: sequences of 1-6 decode_packet / get_length / process_packet calls on one validly configured context (7-bit address, 0-30 message types, 0-16 (rarely 255 or 256) vendor sets of format 0/1, response buffer 64-300 bytes), the sequence being applied once or - three cases in a hundred - 2-8 or 256-400 times over (long histories); inputs of length 0-640: frame-grammar packets (every command code, completion code, operation and selector value), reference-encoded valid packets, their one-byte mutations and truncations, control requests with the right data length for every command, random bytes. enumerated (both tiers): every truncation point of 24 reference-encoded packets (as is and with the PEC repaired) and every value 0..255 of every byte position of those packets (PEC repaired), through all three entry points. oracle: catch_unwind around each call, built with overflow checks and debug assertions. non-trivial = the sequence contains an input that passes transport-header and type validation, or a truncation of a valid packet; distinct by hash".into()
+        "generated: sequences of 1-6 decode_packet / get_length / process_packet calls on one validly configured context (7-bit address, 0-30 message types, 0-16 (rarely 255 or 256) vendor sets of format 0/1, response buffer 64-300 bytes), the sequence being applied once or - three cases in a hundred - 2-8 or 256-400 times over, and one case in eight thousand (then at most two calls) 65 600-66 000 times over (long histories); accessor calls on either half, UUID updates and encodes are interleaved; inputs of length 0-640: frame-grammar packets (every command code, completion code, operation and selector value), reference-encoded valid packets, their one-byte mutations and truncations, control requests with the right data length for every command, random bytes. enumerated (both tiers): every truncation point of 24 reference-encoded packets (as is and with the PEC repaired) and every value 0..255 of every byte position of those packets (PEC repaired), through all three entry points. oracle: catch_unwind around each call, built with overflow checks and debug assertions. non-trivial = the sequence contains an input that passes transport-header and type validation, or a truncation of a valid packet; distinct by hash".into()
     }
     fn assumptions(&self) -> Vec<String> {
         vec!["not demanded: behaviour with invalid configuration (vendor format not 0/1, more than 30 message types, response buffer shorter than 64 bytes); a context without any vendor ID set is treated as valid".into()]
@@ -114,11 +114,23 @@ impl Prop for C10 {
             }),
         ];
         let op = prop_oneof![
-            6 => (input.clone(), 64u16..=300, any::<u8>()).prop_map(|(bytes, cap, fill)| Op::Process { bytes, cap, fill }),
-            3 => input.clone().prop_map(|bytes| Op::Decode { bytes }),
-            1 => input.prop_map(|bytes| Op::GetLength { bytes }),
+            12 => (input.clone(), 64u16..=300, any::<u8>()).prop_map(|(bytes, cap, fill)| Op::Process { bytes, cap, fill }),
+            6 => input.clone().prop_map(|bytes| Op::Decode { bytes }),
+            2 => input.prop_map(|bytes| Op::GetLength { bytes }),
+            // the rest of a context's history: accessor calls on either half, UUID updates, encodes
+            1 => gen::any_u8().prop_map(Op::SetReqEid),
+            1 => gen::any_u8().prop_map(Op::SetRespEid),
+            1 => gen::uuid().prop_map(Op::SetUuid),
+            1 => (gen::enc_call(false, false, false), gen::addr7()).prop_map(|(call, dest)| Op::Encode { call, dest }),
         ];
-        (gen::ctx_cfg_extreme(), proptest::collection::vec(op, 1..=6), prop_oneof![200 => Just(1u32), 4 => 2u32..=8, 2 => 256u32..=400]).prop_map(|(cfg, ops, repeat)| Case { cfg, ops, repeat }).boxed()
+        (gen::ctx_cfg_extreme(), proptest::collection::vec(op, 1..=6), prop_oneof![8000 => Just(1u32), 160 => 2u32..=8, 80 => 256u32..=400, 1 => 65_600u32..=66_000])
+            .prop_map(|(cfg, mut ops, repeat)| {
+                if repeat > 1000 {
+                    ops.truncate(2); // keep the very long histories affordable
+                }
+                Case { cfg, ops, repeat }
+            })
+            .boxed()
     }
     fn budget(&self, tier: Tier) -> u64 {
         match tier {
@@ -216,7 +228,11 @@ impl Prop for C10 {
                 Op::Process { bytes, .. } => ("process", bytes),
                 Op::Decode { bytes } => ("decode", bytes),
                 Op::GetLength { bytes } => ("get_length", bytes),
-                _ => continue,
+                other => {
+                    // accessor calls, UUID updates and encodes are part of the history
+                    let _ = sut::apply_op(&mut ctx, other);
+                    continue;
+                }
             };
             let class = entry_class(bytes);
             r.label(intern(class.clone()));
